@@ -51,6 +51,10 @@ CHECKS = {
     "C13": ("exploration", "runtime monitor: API round-trip oracle (setter/creator -> getter, in memory and after save+reload) with storage-quantisation models, over versions x boundary vertex/triangle counts, under ASan/UBSan",
             "Meshes at the sizes {1,2,3,...,65535,65536,70000} are created in six versions; every getter is compared with the given data under the exact storage model (half-float "
             "rounding, byte quantisation) before and after raw/default save+reload, each setter is followed by all getters and by an all-arrays length check.", "3/C13"),
+    "C14": ("exploration", "runtime monitor: sub-graph isomorphism between source and clone over hook-located reference slots and canonical payloads, accessor record equality, source byte equality, destination save+reload",
+            "Every shape of real, API-built and synthesised models is cloned into the same, a fresh and another loaded model (1-3 times); the owned sub-graph of the clone must be "
+            "isomorphic to the source's with equal canonical payloads and entirely inside the destination, the accessor record, bone names and the source's raw-save bytes are compared, "
+            "and the destination must default-save and reload with the clone unchanged.", "3/C14"),
     "C15": ("fault_enumeration", "fault enumeration under ASan/UBSan/libstdc++ assertions: every reference-field stratum x corruption kind (hook-located offsets, bytes patched outside the library), fork-isolated with CPU-time hang detection",
             "Reference fields are located by the BlockRef hook of the traced raw save and patched directly in the bytes; strata (block type, target class) x 8 corruption kinds plus "
             "2-3-fold combinations are enumerated for real, synthesised (every block type) and API-built files; each fault runs load, query battery, copy, both saves and reload in a "
